@@ -101,6 +101,25 @@ Fixpoint xsi_ok (t : tree) : bool :=
       && (fix go (l : list tree) : bool := match l with [] => true | x :: r => xsi_ok x && go r end) kids
   end.
 
+(* an element whose xsi:type names a built-in SIMPLE type has that type in place of its declared one (saml:AttributeValue
+   is xs:anyType by declaration): no element content and no attributes of its own *)
+Definition simple_typed (attrs : list (qname * string)) : bool :=
+  existsb (fun kv => qeqb (fst kv) (Q XSI "type")
+                     && match strip_prefix XS_CLARK (snd kv) with
+                        | Some local => negb (String.eqb local "anyType")
+                                        && match lookup local xs_builtin with Some _ => true | None => false end
+                        | None => false
+                        end) attrs.
+
+Fixpoint typed_ok (t : tree) : bool :=
+  match t with
+  | Node _ attrs _ kids =>
+      (if simple_typed attrs
+       then match kids with [] => true | _ => false end && forallb (fun kv => String.eqb (q_ns (fst kv)) XSI) attrs
+       else true)
+      && (fix go (l : list tree) : bool := match l with [] => true | x :: r => typed_ok x && go r end) kids
+  end.
+
 (* ------------------------------------------------------------------ choice groups *)
 Inductive rule :=
 | Count (min : nat) (max : option nat) (tags : list qname)   (* that many children out of this group *)
@@ -175,7 +194,8 @@ Definition root_choices_ok (t : tree) : bool :=
 
 (* everything Coq judges of a document: the class tables and the three additions *)
 Definition doc_ok (t : tree) : bool :=
-  valid_doc live_table t && ids_unique live_table live_ids t && xsi_ok t && choices_ok live_table choice_rules t.
+  valid_doc live_table t && ids_unique live_table live_ids t && xsi_ok t && typed_ok t
+  && choices_ok live_table choice_rules t.
 
 (* ================================================================== s_utils.do_attributes *)
 (* a value of the `attribute` dictionary: str / None / list of str, plain or as the first half of a TUPLE
